@@ -65,6 +65,17 @@ def late_module(name, version):
                       ['assign', 'xl_%s_v%d' % (s, version), str(version)]]}
 
 
+def late_names(spec):
+    """Modules that do not exist yet but are already referred to (optional imports, package attributes)."""
+    mods = spec['modules']
+    late = [it[1] for m in mods for it in m['items'] if it[0] == 'tryimport' and not any(x_['name'] == it[1] for x_ in mods)]
+    late += [it[1] + '.' + it[2] for m in mods for it in m['items']
+             if it[0] == 'tryfrom' and not any(x_['name'] == it[1] + '.' + it[2] for x_ in mods)]
+    late += [m['name'] + '.' + a for m in mods if m.get('init') for a in (m['iface'].get('attrs') or [])
+             if not any(x_['name'] == m['name'] + '.' + a for x_ in mods)]
+    return late
+
+
 def gen_edit(r, spec, state, allow_backward=True):
     """One edit operation against the current spec; returns (op, new spec)."""
     mods = spec['modules']
@@ -74,6 +85,9 @@ def gen_edit(r, spec, state, allow_backward=True):
     late = [it[1] for m in mods for it in m['items'] if it[0] == 'tryimport' and not any(x_['name'] == it[1] for x_ in mods)]
     late += [it[1] + '.' + it[2] for m in mods for it in m['items']
              if it[0] == 'tryfrom' and not any(x_['name'] == it[1] + '.' + it[2] for x_ in mods)]
+    # a sub-module that takes the name of an attribute the package already defines
+    late += [m['name'] + '.' + a for m in mods if m.get('init') for a in (m['iface'].get('attrs') or [])
+             if not any(x_['name'] == m['name'] + '.' + a for x_ in mods)]
     if x < 0.12 and late:
         nm = r.choice(late)
         mod = late_module(nm, 1)
@@ -100,7 +114,10 @@ def gen_edit(r, spec, state, allow_backward=True):
         new = {'modules': mods[:idx] + [old] + mods[idx + 1:]}
         return {'op': 'revert', 'module': m['name'], 'newmod': old, 'dt_ms': dt}, new
     nm = G.mutate_module(r, spec, idx)
-    if G.short(m['name']).startswith(('zqlate_', 'zqlsub_')):
+    if r.random() < 0.05 and not m.get('init'):
+        # a save in the middle of typing: the file does not parse (a fresh project sees the same broken file)
+        nm = dict(nm, items=nm['items'] + [['raw', ['def zqbroken(:', '    pass']]])
+    if G.short(m['name']).startswith(('zqlate_', 'zqlsub_', 'zqattr_')):
         nm = late_module(m['name'], m['version'] + 1)
     # version numbers only grow, also after a revert
     top = max([m['version']] + [h['version'] for h in state['history'].get(m['name'], [])])
@@ -112,7 +129,7 @@ def gen_edit(r, spec, state, allow_backward=True):
 
 def _reversion(r, spec, idx, version):
     m = dict(spec['modules'][idx], version=version - 1)
-    if G.short(m['name']).startswith(('zqlate_', 'zqlsub_')):
+    if G.short(m['name']).startswith(('zqlate_', 'zqlsub_', 'zqattr_')):
         return late_module(m['name'], version)
     tmp = {'modules': spec['modules'][:idx] + [m] + spec['modules'][idx + 1:]}
     return G.mutate_module(r, tmp, idx)
@@ -143,6 +160,9 @@ def gen_case(seed, i, mode='main'):
             if not (j == 0 and r.random() < 0.5):
                 continue
         origin = last_edit if (last_edit and r.random() < 0.75) else None
+        lates = late_names(cur)
+        if lates and r.random() < 0.3:
+            origin = r.choice(lates)       # look at a name whose module may be created later
         q = G.gen_request(r, cur, uid='q%d' % nreq, origin=origin, target=origin if r.random() < 0.3 else None)
         nreq += 1
         op = {'op': 'request', 'req': {'kind': q['kind'], 'source': q['source'], 'position': q['position'], 'file': q['file'], 'indirect': q.get('indirect', False)}}
@@ -152,7 +172,7 @@ def gen_case(seed, i, mode='main'):
             alts = {}
             mods2 = list(cur['modules'])
             for mi, m in enumerate(cur['modules']):
-                if G.short(m['name']).startswith(('zqlate_', 'zqlsub_')):
+                if G.short(m['name']).startswith(('zqlate_', 'zqlsub_', 'zqattr_')):
                     nm = late_module(m['name'], m['version'] + 1)
                 else:
                     top = max([m['version']] + [h['version'] for h in state['history'].get(m['name'], [])])
@@ -180,7 +200,7 @@ def gen_case(seed, i, mode='main'):
         q = G.gen_request(r, cur, uid='q%d' % nreq, origin=last_edit)
         nreq += 1
         ops.append({'op': 'request', 'req': {'kind': q['kind'], 'source': q['source'], 'position': q['position'], 'file': q['file'], 'indirect': q.get('indirect', False)}})
-    return {'spec': spec, 'ops': ops, 'idhash_seed': r.getrandbits(31), 'warm': r.random() < 0.8}
+    return {'spec': spec, 'ops': ops, 'idhash_seed': r.getrandbits(31), 'warm': r.choice((True, True, 'together', 'together', False))}
 
 
 def chain_spec():
@@ -345,7 +365,7 @@ class History(object):
             for mod in op.get('newmods') or [op['newmod']]:
                 self.current[mod['name']] = mod
                 self.write(mod, op['dt_ms'])
-                if G.short(mod['name']).startswith(('zqlate_', 'zqlsub_')):
+                if G.short(mod['name']).startswith(('zqlate_', 'zqlsub_', 'zqattr_')):
                     self.probes['create_after_failed_import'] += 1
         name = op.get('module') or (op.get('newmod') or op['newmods'][-1])['name']
         if name not in self.loaded:
@@ -369,7 +389,15 @@ class History(object):
             supp.scope.builtin_scope.__dict__.pop('names', None)
             server = S.Server(None)
             server.configure({'sources': [self.root]})
-            if case.get('warm'):
+            if case.get('warm') == 'together':
+                src = ''.join('from %s import *\n' % m['name'] for m in case['spec']['modules']) + 'zq\n'
+                ask(server, self.root, {'kind': 'lint', 'source': src, 'position': None, 'file': 'zqmain.py'})
+                for m in case['spec']['modules']:
+                    ask(server, self.root, {'kind': 'assist', 'source': src + '%s.\n' % m['name'].split('.')[0],
+                                            'position': [len(case['spec']['modules']) + 2, len(m['name'].split('.')[0]) + 1],
+                                            'file': 'zqmain.py'})
+                self.loaded = set(server.project._module_cache)
+            elif case.get('warm'):
                 # an editing session usually starts with requests that load the whole project
                 for m in case['spec']['modules']:
                     if not m.get('init'):
